@@ -67,8 +67,7 @@ def unit(f):
              preludes=[("common.rs", None), ("field_consts.rs", dict(NW=fp["N64"])), ("le_lemmas.rs", None),
                        ("ark_ff.rs", None), ("subtle.rs", None)],
              items=items, lemmas=lem, params=fp,
-             global_subst=[("R6", r'\bu64::from_le_bytes\(', 'u64_from_le_bytes('),
-                           ("R6", r'\b(\w+(?:\[\w+\])?)\.to_le_bytes\(\)', r'u64_to_le_bytes(\1)')])
+             )
     u.raw = [(path, "struct", F)]
     u.consts = {"N_64": n64, "N_8": n8, "N": n64, "N_32": fp["N32"]}
     return u
